@@ -119,6 +119,12 @@ impl EventSource for Timer {
             if registration.token != token {
                 return Ok(PostAction::Continue);
             }
+            // If the current arming is still waiting in the wheel, this event is the expiry of an
+            // earlier arming that was collected before the timer got re-armed (re-registered from
+            // another callback of the same dispatch): ignore it, the new deadline has not expired.
+            if registration.wheel.borrow().contains(registration.counter) {
+                return Ok(PostAction::Continue);
+            }
             let new_deadline = match callback(*deadline, &mut ()) {
                 TimeoutAction::Drop => return Ok(PostAction::Remove),
                 TimeoutAction::ToInstant(instant) => instant,
@@ -240,6 +246,10 @@ impl TimerWheel {
         };
 
         self.heap.retain(|data| data.counter != counter);
+    }
+
+    pub(crate) fn contains(&self, counter: u32) -> bool {
+        self.heap.iter().any(|data| data.counter == counter)
     }
 
     pub(crate) fn next_expired(&mut self, now: Instant) -> Option<(u32, Token)> {
